@@ -9,7 +9,7 @@ import sqlite3
 import tempfile
 import time
 
-from .core import DEFAULT_SETTINGS, ENOVAL, Cache, Disk, Timeout
+from .core import DBNAME, DEFAULT_SETTINGS, ENOVAL, Cache, Disk, Timeout
 from .persistent import Deque, Index
 
 
@@ -35,20 +35,31 @@ class FanoutCache:
         directory = op.expandvars(directory)
 
         default_size_limit = DEFAULT_SETTINGS['size_limit']
-        size_limit = settings.pop('size_limit', default_size_limit) / shards
+        size_limit = settings.pop('size_limit', None)
+
+        def shard_settings(path):
+            # A shard that already exists keeps the size limit it was created
+            # with unless a new total is given; new shards get their share of
+            # the default.
+            if size_limit is not None:
+                return dict(settings, size_limit=size_limit / shards)
+            if op.exists(op.join(path, DBNAME)):
+                return settings
+            return dict(settings, size_limit=default_size_limit / shards)
+
+        paths = [op.join(directory, '%03d' % num) for num in range(shards)]
 
         self._count = shards
         self._directory = directory
         self._disk = disk
         self._shards = tuple(
             Cache(
-                directory=op.join(directory, '%03d' % num),
+                directory=path,
                 timeout=timeout,
                 disk=disk,
-                size_limit=size_limit,
-                **settings,
+                **shard_settings(path),
             )
-            for num in range(shards)
+            for path in paths
         )
         self._hash = self._shards[0].disk.hash
         self._caches = {}
